@@ -387,6 +387,24 @@ def standin_predicates(tier, seed):
                 want = Z @ cirq.unitary(g) @ Z.conj().T
                 if not cirq.allclose_up_to_global_phase(cirq.unitary(ph), want, atol=1e-7):
                     bad("phase_by is not conjugation by the Z rotation (up to global phase)", gate=g, qubit_index=qi, turns=turns)
+    # phase_by on matrix gates over MIXED qid shapes: conjugation by the Z rotation on the chosen qubit, identity on every other qid whatever its dimension
+    for shape in ((2,), (2, 2), (2, 3), (3, 2), (2, 4), (4, 2), (3, 2, 3), (2, 3, 2), (2, 2, 2), (2, 2, 3)):
+        dim = int(np.prod(shape))
+        g = cirq.MatrixGate(cirq.testing.random_unitary(dim, random_state=rng.randrange(10 ** 6)), qid_shape=shape)
+        for qi, d in enumerate(shape):
+            for turns in (0.25, 0.1, -0.3):
+                ph = cirq.phase_by(g, turns, qi, default=None)
+                if ph is None:
+                    continue
+                cases += 1
+                Zi = np.eye(1)
+                for k, dk in enumerate(shape):
+                    Zi = np.kron(Zi, np.diag([1, np.exp(2j * np.pi * turns)]) if k == qi else np.eye(dk))
+                want = Zi @ cirq.unitary(g) @ Zi.conj().T
+                if d != 2:
+                    bad("phase_by answered for a qid that is not a qubit", gate=g, qubit_index=qi)
+                elif not cirq.allclose_up_to_global_phase(cirq.unitary(ph), want, atol=1e-7):
+                    bad("phase_by of a matrix gate with a mixed qid shape is not conjugation by the Z rotation on that qubit", gate_qid_shape=shape, qubit_index=qi, turns=turns)
     return dict(function="cirq-core/cirq/{ops,protocols}[predicates vs matrices]", case="predicates",
                 bound="~150 gates: trace_distance_bound, has_stabilizer_effect, pauli_expansion; all same-size pairs of 1-2 qubit gates: commutes/==/approx_eq/"
                       "equal_up_to_global_phase; phase_by on each qubit", cases=cases, distinct=cases, failures=len(fails), exhaustive=False, _fails=fails[:6])
